@@ -52,7 +52,9 @@ def conc(model, v, cap=600, depth=0):
         r = model.eval(v.t, model_completion=True)
         return models.strid_value(r.as_long()) if z3.is_int_value(r) else str(r)
     if isinstance(v, (tuple, list)):
-        return type(v)(conc(model, e) for e in v)
+        return type(v)(conc(model, e, cap, depth) for e in v)
+    if isinstance(v, dict):
+        return {k: conc(model, e, cap, depth) for k, e in v.items()}
     if isinstance(v, Sym):
         return {"$sym": repr(v)}
     if hasattr(type(v), "_pyvc_witness"):
